@@ -13,7 +13,7 @@ from . import common as C, chan
 sys.path.insert(0, os.path.join(C.VERIF, "extract"))
 
 MODULE = "AcqVerif.Props.C05"
-DRIVERS = ["acq_frames", "acq_chan", "acq_simcam", "acq_runtime", "AcqVerif.Channel.Translated"]
+DRIVERS = ["acq_frames", "acq_chan", "acq_simcam", "acq_runtime", "AcqVerif.Channel.Refine"]
 THEOREMS = ["AcqVerif.C05.%s" % t for t in (
     "frame_size", "accumulator_size", "header_layout", "bytes_of_type_table", "regions_8_aligned", "regions_are_whole_writes")]
 
